@@ -122,6 +122,10 @@ static long g_flip_off = -1; static unsigned char g_flip_bytes[16]; static int g
 static int g_virtual = 0; /* serve script reads from a private buffer */
 
 static unsigned char g_is_script[MAX_FDS];
+/* descriptors that refer to the same open file as fd 1 / fd 2 (dup, dup2, dup3, F_DUPFD*,
+   /dev/stdout, /proc/self/fd/1 ...): writes through them are stdout / stderr writes */
+static unsigned char g_alias[MAX_FDS];
+static int alias_of(int fd) { if (fd == 1 || fd == 2) return fd; if (fd >= 0 && fd < MAX_FDS) return g_alias[fd]; return 0; }
 static unsigned char *g_vbuf = NULL; static long g_vlen = 0;
 static long g_vpos[MAX_FDS];
 static long g_stream_pos = 0;
@@ -339,10 +343,11 @@ static struct rule *find_rule(struct rule *rs, int n, int fd, long idx, int matc
 
 /* --------------------------------------------------------------- write */
 
-static ssize_t do_write(int fd, const void *buf, size_t count) {
+static ssize_t do_write(int rfd, const void *buf, size_t count) {
     plan_init();
-    if (fd < 0 || fd >= MAX_FDS || fd == g_logfd || (fd != 1 && fd != 2)) {
-        return (ssize_t)syscall(SYS_write, fd, buf, count);
+    int fd = (rfd == g_logfd) ? 0 : alias_of(rfd);
+    if (fd != 1 && fd != 2) {
+        return (ssize_t)syscall(SYS_write, rfd, buf, count);
     }
     maybe_kill();
     long idx = g_wcount[fd]++;
@@ -402,7 +407,7 @@ static ssize_t do_write(int fd, const void *buf, size_t count) {
         size_t k = 1 + (size_t)(splitmix(&g_wchunk_state[fd]) % (unsigned long long)g_wchunk_max[fd]);
         if (k < allow) { allow = k; if (act[0] == '-') act = "chunk"; }
     }
-    long ret = syscall(SYS_write, fd, buf, allow);
+    long ret = syscall(SYS_write, rfd, buf, allow);
     int e = ret < 0 ? errno : 0;
     log_event('W', fd, (long)count, ret, e, act, ret > 0 ? (const unsigned char *)buf : NULL, ret > 0 ? ret : 0);
     errno = e;
@@ -414,7 +419,7 @@ ssize_t __write(int fd, const void *buf, size_t count) { return do_write(fd, buf
 
 ssize_t writev(int fd, const struct iovec *iov, int iovcnt) {
     plan_init();
-    if (fd != 1 && fd != 2) return (ssize_t)syscall(SYS_writev, fd, iov, iovcnt);
+    if (fd == g_logfd || (alias_of(fd) != 1 && alias_of(fd) != 2)) return (ssize_t)syscall(SYS_writev, fd, iov, iovcnt);
     /* deliver the first non-empty buffer only: a legal short writev */
     for (int i = 0; i < iovcnt; i++) {
         if (iov[i].iov_len > 0) return do_write(fd, iov[i].iov_base, iov[i].iov_len);
@@ -492,6 +497,11 @@ static int do_open(int dirfd, const char *path, int flags, mode_t mode) {
     } else if (g_main_started && path) {
         log_event('o', (int)fd, 0, fd, e, "-", (const unsigned char *)path, (long)strlen(path));
     }
+    if (fd >= 0 && fd < MAX_FDS && path) {
+        g_alias[fd] = 0;
+        if (!strcmp(path, "/dev/stdout") || !strcmp(path, "/proc/self/fd/1") || !strcmp(path, "/dev/fd/1")) g_alias[fd] = 1;
+        if (!strcmp(path, "/dev/stderr") || !strcmp(path, "/proc/self/fd/2") || !strcmp(path, "/dev/fd/2")) g_alias[fd] = 2;
+    }
     errno = e;
     return (int)fd;
 }
@@ -534,12 +544,34 @@ int isatty(int fd) {
     return 0;
 }
 
+/* ----------------------------------------------------------------- dup */
+
+int dup(int fd) {
+    plan_init();
+    long r = syscall(SYS_dup, fd);
+    if (r >= 0 && r < MAX_FDS) g_alias[r] = (unsigned char)alias_of(fd);
+    return (int)r;
+}
+int dup3(int fd, int nfd, int flags) {
+    plan_init();
+    int a = alias_of(fd);
+    long r = syscall(SYS_dup3, fd, nfd, flags);
+    if (r >= 0 && r < MAX_FDS && r != 1 && r != 2) g_alias[r] = (unsigned char)a;
+    return (int)r;
+}
+int dup2(int fd, int nfd) {
+    plan_init();
+    if (fd == nfd) return (int)syscall(SYS_fcntl, fd, F_GETFD) < 0 ? -1 : nfd;
+    return dup3(fd, nfd, 0);
+}
+
 /* --------------------------------------------------------------- fcntl */
 
 static int do_fcntl(int fd, int cmd, long arg) {
     plan_init();
     long r = syscall(SYS_fcntl, fd, cmd, arg);
     if (r >= 0 && cmd == F_SETFL && fd >= 0 && fd < MAX_FDS && g_is_script[fd]) g_nonblock[fd] = (arg & O_NONBLOCK) ? 1 : 0;
+    if (r >= 0 && r < MAX_FDS && (cmd == F_DUPFD || cmd == F_DUPFD_CLOEXEC)) g_alias[r] = (unsigned char)alias_of(fd);
     return (int)r;
 }
 int fcntl(int fd, int cmd, ...) { va_list ap; va_start(ap, cmd); long arg = va_arg(ap, long); va_end(ap); return do_fcntl(fd, cmd, arg); }
@@ -616,7 +648,10 @@ static ssize_t do_read(int fd, void *buf, size_t count) {
         }
     }
     if (g_rchunk_max >= 1) {
-        size_t k = 1 + (size_t)(splitmix(&g_rchunk_state) % (unsigned long long)g_rchunk_max);
+        /* large scripts: keep the number of reads (and log records) in the low thousands */
+        unsigned long long cmax = (unsigned long long)g_rchunk_max;
+        if (g_vlen > 32768 && cmax < (unsigned long long)(g_vlen / 2000)) cmax = (unsigned long long)(g_vlen / 2000);
+        size_t k = 1 + (size_t)(splitmix(&g_rchunk_state) % cmax);
         if (k < allow) { allow = k; if (act[0] == '-') act = "chunk"; }
     }
     long avail = g_vlen - g_vpos[fd];
@@ -667,6 +702,7 @@ int close(int fd) {
         return (int)r;
     }
     if (fd == g_logfd && g_logfd >= 0) return 0; /* keep the log alive */
+    if (fd >= 3 && fd < MAX_FDS) g_alias[fd] = 0;
     return (int)syscall(SYS_close, fd);
 }
 
